@@ -274,6 +274,36 @@ fn structured_faults(doc: &Value, rng: &mut Rng, thorough: bool) -> Vec<FileFaul
             }
         }
     }
+    // a first FRI step other than 0, declared consistently (the last-layer bound shrinks by the
+    // same factor): every layer height depends on it
+    if let (Some(steps), Some(bound)) = (doc.pointer("/proof_parameters/stark/fri/fri_step_list").and_then(|v| v.as_array()).cloned(), doc.pointer("/proof_parameters/stark/fri/last_layer_degree_bound").and_then(|v| v.as_u64())) {
+        for k in [1u64, 2, 4] {
+            if !steps.is_empty() && bound % (1 << k) == 0 && bound >> k >= 1 {
+                let mut ns = steps.clone();
+                ns[0] = json!(k);
+                let mut d = doc.clone();
+                *d.pointer_mut("/proof_parameters/stark/fri/fri_step_list").unwrap() = json!(ns);
+                *d.pointer_mut("/proof_parameters/stark/fri/last_layer_degree_bound").unwrap() = json!(bound >> k);
+                push("param:fri-first-step", d, json!({"op": "set-many", "sets": [{"ptr": "/proof_parameters/stark/fri/fri_step_list", "value": ns}, {"ptr": "/proof_parameters/stark/fri/last_layer_degree_bound", "value": bound >> k}]}));
+            }
+        }
+    }
+    // every memory segment given its own addresses (in the shipped files unused builtins share one
+    // empty segment, which hides any mix-up of their positions)
+    if let Some(Value::Object(m)) = doc.pointer("/public_input/memory_segments") {
+        let mut sets = Vec::new();
+        let mut d = doc.clone();
+        for (i, name) in m.keys().enumerate() {
+            if ["program", "execution", "output"].contains(&name.as_str()) {
+                continue;
+            }
+            let b = 100_000 + 1000 * i as u64;
+            let v = json!({"begin_addr": b, "stop_ptr": b + 7 * (i as u64 + 1)});
+            *d.pointer_mut(&format!("/public_input/memory_segments/{name}")).unwrap() = v.clone();
+            sets.push(json!({"ptr": format!("/public_input/memory_segments/{name}"), "value": v}));
+        }
+        push("segments-all-distinct", d, json!({"op": "set-many", "sets": sets}));
+    }
     // missing keys
     for ptr in ["/proof_parameters/stark/fri/n_queries", "/proof_parameters/stark/log_n_cosets", "/public_input/memory_segments", "/public_input/rc_min", "/annotations", "/public_input/public_memory", "/proof_parameters/n_verifier_friendly_commitment_layers"] {
         let mut d = doc.clone();
@@ -591,6 +621,12 @@ fn rebuild(rep: &Value) -> Result<String, String> {
         }
         Some("set") => {
             *doc.pointer_mut(spec["ptr"].as_str().ok_or("ptr")?).ok_or("no such pointer")? = spec["value"].clone();
+            doc
+        }
+        Some("set-many") => {
+            for st in spec["sets"].as_array().ok_or("sets")? {
+                *doc.pointer_mut(st["ptr"].as_str().ok_or("ptr")?).ok_or("no such pointer")? = st["value"].clone();
+            }
             doc
         }
         Some("remove") => {
